@@ -120,6 +120,28 @@ def rule_divisors(ctx):
         ctx.check(R, name + "/has-error-result", bool(errs) and "Result<" in (fn["sig"]["output"] or ""), "returns %s" % fn["sig"]["output"], site(MA, fn))
 
 
+def bits_linear(e, fn, at, depth=0):
+    """expr -> (coefficient of the field's bit length, constant) or None"""
+    e = resolve(e, fn, at)
+    if depth > 8:
+        return None
+    t = render(e).replace(" ", "")
+    if t in ("bit_representation(field).1.len()", "field.bits()"):
+        return (1, 0)
+    m = re.fullmatch(r"(?:BigInt::from\()?(\d+)\)?", t)
+    if m:
+        return (0, int(m.group(1)))
+    if e["k"] == "Binary" and e["op"] in ("+", "-"):
+        a, b = bits_linear(e["l"], fn, at, depth + 1), bits_linear(e["r"], fn, at, depth + 1)
+        if a is None or b is None:
+            return None
+        sg = 1 if e["op"] == "+" else -1
+        return (a[0] + sg * b[0], a[1] + sg * b[1])
+    if e["k"] == "Cast":
+        return bits_linear(e["e"], fn, at, depth + 1)
+    return None
+
+
 def rule_exponents(ctx):
     R = "C16.2"
     ctx.rule(R, "every exponent of an integer power that derives from an operand is bounded, on every path to the power, by a comparison against a quantity derived from the field's bit length")
@@ -144,6 +166,7 @@ def rule_exponents(ctx):
             conds = conditions_to(fn["body"], x) or []
             bounded = False
             seen = []
+            cutoff = []
             for f in conds:
                 if f[0] != "if":
                     continue
@@ -166,10 +189,18 @@ def rule_exponents(ctx):
                 b = resolve(bound, fn, x)
                 bt = render(b).replace(" ", "")
                 seen.append("%s bounded by %s" % ("upper" if upper else "lower", bt))
-                small = ("bit_representation(field)" in bt) or ("field.bits()" in bt) or re.fullmatch(r"(?:BigInt::from\()?\d{1,4}\)?", bt) is not None or "mask_bits" in bt
-                if upper and small:
+                lin = bits_linear(bound, fn, x)
+                seen[-1] += " = %s" % (lin,)
+                if upper and lin is not None and lin[0] in (0, 1) and lin[1] <= 4096:
                     bounded = True
+                    # the complementary exit (exponent >= bound) must not cut off representable results:
+                    # it may only exist for bound >= bit length of the field
+                    if lin[0] == 1 and lin[1] < 0:
+                        cutoff.append("shift counts from bits%+d up to bits-1 take the early exit although their result is not zero" % lin[1])
+                    if lin[0] == 0:
+                        cutoff.append("constant bound %d is not derived from the field's bit length" % lin[1])
             ctx.check(R, key, bounded, "exponent `%s` comes from an operand; bounding facts on the path: %s (a bound by p/2 is not a bound on the size of 2^k)" % (render(strip(ex)), seen), site(MA, x))
+            ctx.check(R, key + "/early-exit-only-beyond-the-field-width", not cutoff, "; ".join(cutoff) + " ; facts: %s" % seen, site(MA, x))
     ctx.floor(R, "power sites", n, 3)
 
 
@@ -506,3 +537,5 @@ def run(ctx):
     rule_exponents(ctx)
     rule_canonical(ctx)
     rule_comparisons(ctx)
+    import c06
+    ctx.include("C16.5", "the constant evaluator reaches these operations with (left, right, prime) in order, takes fallible results only on Ok and has no shortcut that bypasses them (shared with C06.1)", c06.rule_operator_table)
